@@ -10,8 +10,9 @@ CHECKS=${@:-C01 C02 C03 C04 C05 C06 C07 C08 C09 C10 C11 C12 C13 C14 C15 C16 C17 
 OUT=/verif/seeded/rewrites/$ID
 mkdir -p $OUT
 cp $D/patch.diff $D/equiv.py $D/meta.json $OUT/ 2>/dev/null
-[ "$(git -C $WT rev-parse HEAD)" = "$(git -C /repo rev-parse HEAD)" ] || { echo "$ID: worktree is not at /repo HEAD"; exit 2; }
 git -C $WT checkout -q -- .
+git -C $WT checkout -q --detach $(git -C /repo rev-parse HEAD) 2>/dev/null
+[ "$(git -C $WT rev-parse HEAD)" = "$(git -C /repo rev-parse HEAD)" ] || { echo "$ID: worktree is not at /repo HEAD"; exit 2; }
 ( cd $WT && PYTHONPATH=$WT timeout 300 /venv/bin/python $D/equiv.py > /tmp/eq0.$$ 2>&1 ); E0=$?
 git -C $WT apply $D/patch.diff || { echo "$ID: patch does not apply"; exit 2; }
 ( cd $WT && PYTHONPATH=$WT timeout 300 /venv/bin/python $D/equiv.py > /tmp/eq1.$$ 2>&1 ); E1=$?
